@@ -593,10 +593,26 @@ def r30_iter_mut_enumerate_take(text):
     (W only used as `*W`)."""
     n = 0
     while True:
-        m = re.search(r'(?m)^([ \t]*)for \((\w+), (\w+)\) in (\w+)\.iter_mut\(\)\.enumerate\(\)\.take\((\w+)\) \{[ \t]*$', text)
+        # (R30b) the same loop over the elements from index N on: `.iter_mut().enumerate().skip(N)` => `for I in (if N < X.len() { N } else { X.len() })..X.len()`
+        ms = re.search(r'(?m)^([ \t]*)for \((\w+), (\w+)\) in (\w+)\.iter_mut\(\)\.enumerate\(\)\.skip\((\w+)\) \{[ \t]*$', text)
+        if ms:
+            ind, i, w, x, cnt = ms.groups()
+            toks = lex(text)
+            ob = max(k for k, t in enumerate(toks) if t.text == '{' and t.end <= ms.end())
+            cb = match_close(toks, ob)
+            body = text[toks[ob].end:toks[cb].start]
+            if re.search(r'(?<![*\w])' + re.escape(w) + r'\b', body):
+                raise Unsupported('R30: iter_mut element used other than as *' + w)
+            n += 1
+            body2 = re.sub(r'\*' + re.escape(w) + r'\b', f'{x}[{i}]', body)
+            text = (text[:ms.start()] + f'{ind}for {i} in (if {cnt} < {x}.len() {{ {cnt} }} else {{ {x}.len() }})..{x}.len() {{' + body2 + text[toks[cb].start:])
+            continue
+        # `.take(N).enumerate()` numbers the same elements as `.enumerate().take(N)`
+        m = re.search(r'(?m)^([ \t]*)for \((\w+), (\w+)\) in (\w+)\.iter_mut\(\)(?:\.enumerate\(\)\.take\((\w+)\)|\.take\((\w+)\)\.enumerate\(\)) \{[ \t]*$', text)
         if not m:
             return text, n
-        ind, i, w, x, cnt = m.groups()
+        ind, i, w, x, cnt, cnt2 = m.groups()
+        cnt = cnt or cnt2
         toks = lex(text)
         ob = max(k for k, t in enumerate(toks) if t.text == '{' and t.end <= m.end())
         cb = match_close(toks, ob)
@@ -900,6 +916,20 @@ def r43_env_top_level(text):
         text = text[:m.start()] + f'env_top_level(&{m.group(1)})' + text[m.end():]
 
 
+def r44_positions_map(text):
+    """`X\n.iter()\n.copied()\n.enumerate()\n.map(|(P, G)| (G, P))\n.collect()` => `positions_by_value(&X)`: an external_body helper of the template
+    (trusted contract of collecting (value, index) pairs into a HashMap: the keys are the elements of X, each mapped to the LAST index at which
+    it occurs).  Line breaks inside the chain are kept."""
+    n = 0
+    while True:
+        m = re.search(r'\b(\w+)\s*\.iter\(\)\s*\.copied\(\)\s*\.enumerate\(\)\s*\.map\(\|\((\w+), (\w+)\)\| \(\3, \2\)\)\s*\.collect\(\)', text)
+        if not m:
+            return text, n
+        n += 1
+        nl = m.group(0).count('\n')
+        text = text[:m.start()] + f'positions_by_value(&{m.group(1)})' + '\n' * nl + text[m.end():]
+
+
 def r10_windows2(text):
     """`for W in X.windows(2) {` => `for w__N in 0..(if X.len() >= 2 { X.len() - 1 } else { 0 }) { let W = [X[w__N], X[w__N + 1]];`
     (Verus has no specification of slice::Windows; for Copy elements W[0], W[1] read the same values)."""
@@ -961,7 +991,7 @@ def r7_param_patterns(text):
     return _apply_edits(text, edits), n
 
 
-RULES = [('R0', r0_visibility_and_stats), ('R1', r1_ref_patterns), ('R7', r7_param_patterns), ('R28', r28_mut_self), ('R8', r8_assert_eq), ('R9', r9_subslice_copy), ('R10', r10_windows2), ('R38', r38_or_pattern_guard), ('R36', r36_chain_collect), ('R39', r39_find_by_name), ('R40', r40_once_chain_collect), ('R41', r41_rev_index_loops), ('R42', r42_entry_occupied_insert), ('R43', r43_env_top_level), ('R37', r37_opt_slice), ('R11', r11_collect), ('R12', r12_subslice_to_subslice), ('R13', r13_copied_take), ('R15', r15_iter_all_eq), ('R16', r16_map_collect_tail), ('R17', r17_match_arm_ref_guard), ('R18', r18_bool_bitand), ('R20', r20_iter_skip), ('R21', r21_let_map_collect), ('R21b', r21b_let_chain_map_collect), ('R29', r29_map_index), ('R22b', r22b_extend_array_iter), ('R33', r33_extend_map_closure), ('R34', r34_extend_array_call), ('R22', r22_vec_extend), ('R23', r23_range_copy), ('R24', r24_opaque_iter), ('R25', r25_iter_sum), ('R26', r26_slice_iters), ('R27', r27_add_assign_ref), ('R30', r30_iter_mut_enumerate_take), ('R0b', r0b_dead_const_block), ('R35', r35_closure_shapes), ('R31', r31_iter_mut_enum_fields), ('R32', r32_iter_mut_plain), ('R16b', r16b_into_iter_map_block_collect),
+RULES = [('R0', r0_visibility_and_stats), ('R1', r1_ref_patterns), ('R7', r7_param_patterns), ('R28', r28_mut_self), ('R8', r8_assert_eq), ('R9', r9_subslice_copy), ('R10', r10_windows2), ('R38', r38_or_pattern_guard), ('R36', r36_chain_collect), ('R39', r39_find_by_name), ('R40', r40_once_chain_collect), ('R41', r41_rev_index_loops), ('R42', r42_entry_occupied_insert), ('R43', r43_env_top_level), ('R44', r44_positions_map), ('R37', r37_opt_slice), ('R11', r11_collect), ('R12', r12_subslice_to_subslice), ('R13', r13_copied_take), ('R15', r15_iter_all_eq), ('R16', r16_map_collect_tail), ('R17', r17_match_arm_ref_guard), ('R18', r18_bool_bitand), ('R20', r20_iter_skip), ('R21', r21_let_map_collect), ('R21b', r21b_let_chain_map_collect), ('R29', r29_map_index), ('R22b', r22b_extend_array_iter), ('R33', r33_extend_map_closure), ('R34', r34_extend_array_call), ('R22', r22_vec_extend), ('R23', r23_range_copy), ('R24', r24_opaque_iter), ('R25', r25_iter_sum), ('R26', r26_slice_iters), ('R27', r27_add_assign_ref), ('R30', r30_iter_mut_enumerate_take), ('R0b', r0b_dead_const_block), ('R35', r35_closure_shapes), ('R31', r31_iter_mut_enum_fields), ('R32', r32_iter_mut_plain), ('R16b', r16b_into_iter_map_block_collect),
          ('R2', r2_array_literal_loops), ('R3', r3_zip_enumerate)]
 
 
